@@ -344,6 +344,7 @@ static void strlen_case(vrng *r, size_t len, int kind /* 0 string 1 bytes 2 name
 {
     uint8_t *src = vg_exact(len);
     for (size_t i = 0; i < len; i++) src[i] = (uint8_t)vr64(r);
+    const uint8_t *arg = (len == 0 && vrn(r, 2)) ? NULL : src;      /* an empty value may come with a NULL pointer (std::vector::data()) */
     vbuf e; memset(&e, 0, sizeof e);
     vb_u8(&e, 0x40);
     if (kind == 2) { ve_strlike(&e, 0x14, src, len); vb_u8(&e, 0x44); }
@@ -352,8 +353,8 @@ static void strlen_case(vrng *r, size_t len, int kind /* 0 string 1 bytes 2 name
     uint8_t *dst = vg_exact(e.n);
     binson_writer w; binson_writer_init(&w, dst, e.n);
     binson_write_object_begin(&w);
-    if (kind == 2) { binson_write_name_with_len(&w, (const char *)src, len); binson_write_boolean(&w, true); }
-    else { binson_write_name(&w, "k"); if (kind == 0) binson_write_string_with_len(&w, (const char *)src, len); else binson_write_bytes(&w, src, len); }
+    if (kind == 2) { binson_write_name_with_len(&w, (const char *)arg, len); binson_write_boolean(&w, true); }
+    else { binson_write_name(&w, "k"); if (kind == 0) binson_write_string_with_len(&w, (const char *)arg, len); else binson_write_bytes(&w, arg, len); }
     binson_write_object_end(&w);
     static const char *kn[] = { "string", "bytes", "name" };
     char sig[80], what[300];
@@ -386,9 +387,9 @@ static void emit(binson_writer *w, const vnode *n, vrng *r, uint64_t *calls)
     case K_DBL: { double d; memcpy(&d, &n->dbits, 8); binson_write_double(w, d); break; }
     case K_STR:
         if (!memchr(n->data, 0, n->data_len) && vrn(r, 2)) binson_write_string(w, (const char *)n->data);   /* arena strings are NUL terminated */
-        else binson_write_string_with_len(w, (const char *)n->data, n->data_len);
+        else binson_write_string_with_len(w, (n->data_len == 0 && vrn(r, 2)) ? NULL : (const char *)n->data, n->data_len);
         break;
-    case K_BYTES: binson_write_bytes(w, n->data, n->data_len); break;
+    case K_BYTES: binson_write_bytes(w, (n->data_len == 0 && vrn(r, 2)) ? NULL : n->data, n->data_len); break;
     case K_OBJ:
         binson_write_object_begin(w);
         for (uint32_t i = 0; i < n->nkids; i++) {
@@ -437,7 +438,18 @@ static void tree_case(vrng *r)
         int need = levels(t, root == K_ARR ? 1 : 0);
         binson_state *st = (binson_state *)malloc(sizeof(binson_state) * (size_t)(need < 1 ? 1 : need));
         P->state = st; P->max_depth = (uint_fast8_t)(need < 1 ? 1 : need);
-        bool ok = (root == K_OBJ ? binson_parser_init_object(P, dst, e.n) : binson_parser_init_array(P, dst, e.n)) && binson_parser_verify(P);
+        bool ok = (root == K_OBJ ? binson_parser_init_object(P, dst, e.n) : binson_parser_init_array(P, dst, e.n));
+        if (ok && vrn(r, 3) == 0) {
+            /* the application looked into the output first and stopped somewhere deep; verify must not care */
+            bool b = root == K_OBJ ? binson_parser_go_into_object(P) : binson_parser_go_into_array(P);
+            for (uint32_t i = 0; b && i < 2 + vrn(r, 8); i++) {
+                if (!binson_parser_next(P)) break;
+                binson_type ty = binson_parser_get_type(P);
+                if (ty == BINSON_TYPE_OBJECT) binson_parser_go_into_object(P); else if (ty == BINSON_TYPE_ARRAY) binson_parser_go_into_array(P);
+            }
+            vw_count("verify_after_partial_walk", 1);
+        }
+        ok = ok && binson_parser_verify(P);
         if (!ok) {
             vbuf d; memset(&d, 0, sizeof d); vb_printf(&d, "the writer's output for a well-formed sequence is rejected by binson_parser_verify (error %s)\ntree: ", verr_name((int)P->error_flags)); vt_describe(t, &d, 700);
             vw_violation("c05:verify-rejects-writer-output", "%s", vb_cstr(&d)); vb_free(&d);
